@@ -235,6 +235,15 @@ func (f *Flow) mkTerm(v ssa.Value) *Term {
 			return &Term{K: TPure, Name: name, Args: args, T: v.Type(), key: "pure:" + name + "(" + strings.Join(keys, ",") + ")"}
 		}
 	case *ssa.Extract:
+		// tag handed on: result #0 of getTag(reader, flag) is byte(flag) unless
+		// flag is the "fresh tag" constant (the protocol is verified by rule
+		// C03.R0 on getTag's own body)
+		if call, ok := x.Tuple.(*ssa.Call); ok && x.Index == 0 {
+			if sc := call.Common().StaticCallee(); sc != nil && f.w.inPkg(sc) && sc.Name() == "getTag" && len(call.Common().Args) == 2 {
+				fl := f.term(call.Common().Args[1])
+				return &Term{K: TPure, Name: "getTag", Args: []*Term{fl}, T: v.Type(), V: v, key: "<getTag:" + call.Name() + ">"}
+			}
+		}
 		a := f.term(x.Tuple)
 		return &Term{K: TLeaf, V: v, T: v.Type(), key: fmt.Sprintf("<x#%d%s>", x.Index, a.key)}
 	}
@@ -378,6 +387,34 @@ func (f *Flow) evalStruct(t *Term, env Env, fl *evalFlags) ISet {
 			}
 		case strings.HasSuffix(t.Name, ".Nanosecond"):
 			return mkSet(0, 999999999)
+		case t.Name == "getTag":
+			fs := f.eval(t.Args[0], env, fl)
+			if fs == nil || fs.Contains(-1) {
+				return top
+			}
+			r, _ := fs.wrap(8, false)
+			return r
+		case t.Name == "(reflect.Value).Int" || t.Name == "(reflect.Value).Uint":
+			// reflect semantics: Int()/Uint() return the value of an integer of
+			// the receiver's Kind, so the Kind facts bound the result
+			kk := "pure:(reflect.Value).Kind(" + t.Args[0].key + ")"
+			ks, ok := env[kk]
+			if !ok {
+				return top
+			}
+			kinds, small := ks.Elems(32)
+			if !small {
+				return top
+			}
+			var r ISet
+			for _, k := range kinds {
+				kr, ok := f.kindRange(k)
+				if !ok {
+					return top
+				}
+				r = r.Union(kr)
+			}
+			return r.Intersect(top)
 		}
 		return top
 	case TConv:
@@ -500,6 +537,45 @@ func (f *Flow) evalStruct(t *Term, env Env, fl *evalFlags) ISet {
 		return f.fit(r.norm(), t.T, fl)
 	}
 	return f.top(t.T)
+}
+
+// kindRange: value range of an integer reflect.Kind under the analysed
+// configuration's word size.
+func (f *Flow) kindRange(k int64) (ISet, bool) {
+	word := uint(f.w.Sizes.Sizeof(types.Typ[types.Int]) * 8)
+	sr := func(bits uint) ISet {
+		lo := new(big.Int).Neg(new(big.Int).Lsh(one, bits-1))
+		hi := new(big.Int).Sub(new(big.Int).Lsh(one, bits-1), one)
+		return ISet{{lo, hi}}
+	}
+	ur := func(bits uint) ISet {
+		return ISet{{new(big.Int), new(big.Int).Sub(new(big.Int).Lsh(one, bits), one)}}
+	}
+	switch k {
+	case 2: // Int
+		return sr(word), true
+	case 3:
+		return sr(8), true
+	case 4:
+		return sr(16), true
+	case 5:
+		return sr(32), true
+	case 6:
+		return sr(64), true
+	case 7: // Uint
+		return ur(word), true
+	case 8:
+		return ur(8), true
+	case 9:
+		return ur(16), true
+	case 10:
+		return ur(32), true
+	case 11:
+		return ur(64), true
+	case 12: // Uintptr
+		return ur(word), true
+	}
+	return nil, false
 }
 
 // ---- refinement ----
